@@ -1,5 +1,6 @@
 import PewProofs.Register
 import PewProofs.RegisterFast
+import PewProofs.RegisterPeak
 import PewTheorems.C11
 
 /-! # C12 — property theorems (statements only depend on `PewModel.Register` / `PewModel.RegisterFast` /
@@ -373,6 +374,35 @@ theorem merge_normalised_reproduces_scene (m : Mode) (hm : m ≠ .sum) (fill : V
   rw [List.map_map] at this
   exact this
 
+/-- **register, then merge, the whole result**: shape and every pixel of what `overlap_arrays`
+returns for windows of one scene at their true offsets equal `mergeSpec` — the function the driver
+sends as `spec` of `c12.merge`: the scene (read at canvas pixel + minimum offset) where a window
+covers the pixel, the fill elsewhere; `replace` and `mean` modes, every fill, any number of windows -/
+theorem merge_whole (m : Mode) (hm : m ≠ .sum) (fill : V) (ndim : Nat)
+    (scene : Idx → Rat) (ws : List (List Int × List Nat)) (hoff : ∀ w ∈ ws, w.1.length = ndim) :
+    overlap false m fill ndim (ws.map fun w => window scene w.1 w.2)
+      = mergeSpec scene fill ndim (ws.map fun w => window scene w.1 w.2) := by
+  simp only [overlap, mergeSpec, Bool.false_eq_true, if_false]
+  congr 1
+  apply List.map_congr_left
+  intro p hp
+  have hplen : p.length = ndim := by
+    rw [allIdxO_length _ p hp]
+    simp [newShape]
+  rw [merge_normalised_reproduces_scene m hm fill ndim scene ws hoff p]
+  have hany : (normalise ndim (ws.map fun w => window scene w.1 w.2)).any (fun a => a.inside p)
+      = (ws.map fun w => window scene w.1 w.2).any
+          (fun a => a.inside (List.zipWith (· + ·) p (minOffset ndim (ws.map fun w => window scene w.1 w.2)))) := by
+    simp only [normalise]
+    rw [List.any_map]
+    apply any_congr_mem
+    intro a ha
+    obtain ⟨w, hw, rfl⟩ := List.mem_map.mp ha
+    simp only [Function.comp]
+    exact inside_normalised _ _ p (by rw [minOffset_length]; exact hplen)
+      (by rw [minOffset_length]; exact hoff w hw)
+  simp only [sceneOnUnion, hany]
+
 end merge
 
 /-! ## the array twin of the driver (`PewModel.RegisterFast`) equals the model
@@ -458,5 +488,92 @@ example : fastLin (toFImg [2, 2] [1, 1/2, 3, -2/3]) (toFImg [1, 2] [4, 2]) [1, -
 
 example : fastCirc (toFImg [2, 2] [1, 1/2, 3, -2/3]) (toFImg [1, 2] [4, 2]) [1, 2] = 6
     ∧ xcorrCirc (mkImg [2, 2] [1, 1/2, 3, -2/3]) (mkImg [1, 2] [4, 2]) [1, 2] = 6 := by decide +kernel
+
+/-! ## from the driver's `peak` to the hypothesis of `register_argmax` -/
+
+/-- **a positive margin makes the reported lag the unique maximiser over the lag box.**  `peak` is
+what the driver evaluates as the specification (lag of the maximum, maximum, largest value at any
+other lag).  If the runner-up is strictly below the maximum (or there is no other lag) then the
+reported lag is in the lag box, the reported value is the correlation there, and the correlation at
+every other lag of the lag box is strictly smaller — the `huniq` hypothesis of `register_argmax`. -/
+theorem peak_margin_unique (a b : Img) (pk : Peak) (h : peak a b = some pk)
+    (hm : ∀ r, pk.runnerUp = some r → r < pk.value) :
+    inLagBox a.shape b.shape pk.lag = true ∧ pk.value = xcorr a b pk.lag ∧
+      ∀ l', inLagBox a.shape b.shape l' = true → l' ≠ pk.lag → xcorr a b l' < xcorr a b pk.lag := by
+  rw [peak_eq_peakOfTable] at h
+  obtain ⟨hmem, hlt⟩ := peakOfTable_margin _ pk h hm
+  obtain ⟨l, hl, e⟩ := List.mem_map.mp hmem
+  simp only [Prod.mk.injEq] at e
+  obtain ⟨e1, e2⟩ := e
+  subst e1
+  refine ⟨(mem_lags _ _ _).mp hl, e2.symm, ?_⟩
+  intro l' hl' hne
+  have := hlt (l', xcorr a b l') (List.mem_map.mpr ⟨l', (mem_lags _ _ _).mpr hl', rfl⟩) hne
+  rw [e2]
+  exact this
+
+/-- **the mechanism returns the lag that `peak` reports whenever the margin is positive** (whether
+or not that lag is the true translation): this is the comparison `c12.py` makes in every determined
+case -/
+theorem peak_margin_register (a b : Img) (pk : Peak)
+    (hpa : ∀ x ∈ a.shape, 0 < x) (hpb : ∀ x ∈ b.shape, 0 < x) (h : peak a b = some pk)
+    (hm : ∀ r, pk.runnerUp = some r → r < pk.value) :
+    register a b = pk.lag ∧ register b a = pk.lag.map (- ·) := by
+  obtain ⟨h1, -, h3⟩ := peak_margin_unique a b pk h hm
+  exact swap_negates a b pk.lag hpa hpb h1 h3
+
+/-- the same on the driver's array twin (long axes): peak of the twin's table with a positive margin
+⇒ the twin's mechanism returns that lag -/
+theorem peak_margin_registerOf_fast (sa sb : List Nat) (da db : List Rat) (pk : Peak)
+    (hpa : ∀ x ∈ sa, 0 < x) (hpb : ∀ x ∈ sb, 0 < x) (hlen : sa.length = sb.length)
+    (h : peakOfTable ((lags sa sb).map (fun l => (l, fastLin (toFImg sa da) (toFImg sb db) l))) = some pk)
+    (hm : ∀ r, pk.runnerUp = some r → r < pk.value) :
+    registerOf (fastCirc (toFImg sa da) (toFImg sb db)) sa sb = pk.lag := by
+  rw [peakOfTable_fast_eq_peak sa sb da db hlen] at h
+  rw [registerOf_fast_eq_register sa sb da db hlen]
+  exact (peak_margin_register (mkImg sa da) (mkImg sb db) pk hpa hpb h hm).1
+
+/-- non-vacuity: the impulse pair of `impulse_unique`: peak `(lag 2, value 1, runner-up 0)` -/
+example : (peak ⟨[4], fun i => if i = [2] then 1 else 0⟩ ⟨[1], fun _ => 1⟩).map
+    (fun pk => (pk.lag, pk.value, pk.runnerUp)) = some ([2], 1, some 0) := by decide +kernel
+
+/-! ## when the maximum sits at the true translation -/
+
+/-- **the estimate is the true translation** under the decidable scene hypothesis `truthHyp`:
+`t` is a lag of the lag box, `b` is the window of zero-extended `a` at `t` (a sub-window of `a`; or a
+window that sticks out of `a` and vanishes there, e.g. two overlapping windows of a scene that is
+zero outside their overlap), and the window of `a` at `t` has the largest energy among the windows
+of `b`'s shape at all lags of the lag box, without an identical twin of the same energy.  Then the
+cross-correlation has its unique maximum at `t` (Cauchy–Schwarz, `window_peak`), `register a b = t`
+and `register b a = −t`.  The driver evaluates `truthHyp` per case. -/
+theorem register_truth (a b : Img) (t : List Int)
+    (hpa : ∀ x ∈ a.shape, 0 < x) (hpb : ∀ x ∈ b.shape, 0 < x) (h : truthHyp a b t = true) :
+    (∀ l, inLagBox a.shape b.shape l = true → l ≠ t → xcorr a b l < xcorr a b t) ∧
+      register a b = t ∧ register b a = t.map (- ·) := by
+  simp only [truthHyp, Bool.and_eq_true, List.all_eq_true, Bool.or_eq_true, beq_iff_eq, decide_eq_true_eq] at h
+  obtain ⟨⟨hbox, hwin⟩, hall⟩ := h
+  have hwin' : ∀ n, inBox n b.shape = true → b.get n = shiftRead a t n := by
+    intro n hn
+    have := (List.all_eq_true.mp hwin) n ((mem_allIdx _ _).mpr hn)
+    simpa using this
+  have huniq : ∀ l, inLagBox a.shape b.shape l = true → l ≠ t → xcorr a b l < xcorr a b t := by
+    intro l hl hne
+    rcases hall l ((mem_lags _ _ _).mpr hl) with e | ⟨hE, hd⟩
+    · exact absurd e hne
+    · simp only [winDiffers, List.any_eq_true, bne_iff_ne] at hd
+      obtain ⟨n, hn, hd⟩ := hd
+      exact window_peak a b t l (inLagBox_len _ _ _ hbox) (inLagBox_len _ _ _ hl) hwin' hE n
+        ((mem_allIdx _ _).mp hn) hd
+  exact ⟨huniq, swap_negates a b t hpa hpb hbox huniq⟩
+
+/-- non-vacuity: `a = [0, 1, 2, 0]`, `b = a[1:3] = [1, 2]`, `t = 1`: the window energies over the lag
+box `−1 … 3` are 0, 1, 5, 4, 0 -/
+example : truthHyp ⟨[4], fun i => if i = [1] then 1 else if i = [2] then 2 else 0⟩
+    ⟨[2], fun i => if i = [0] then 1 else 2⟩ [1] = true := by decide +kernel
+
+/-- … and a pair for which it fails although `b` is a sub-window: `a = [3, 1, 2, 0]`, `b = a[1:3]`
+(the window at lag 0 has more energy) -/
+example : truthHyp ⟨[4], fun i => if i = [0] then 3 else if i = [1] then 1 else if i = [2] then 2 else 0⟩
+    ⟨[2], fun i => if i = [0] then 1 else 2⟩ [1] = false := by decide +kernel
 
 end Pew.Register
